@@ -15,16 +15,24 @@
 (* differing field, and that every schedule / repetition of an encoding    *)
 (* yields one single byte string.                                          *)
 (***************************************************************************)
-EXTENDS Naturals, Sequences, FiniteSets
+EXTENDS Integers, Sequences, FiniteSets
 
-RECURSIVE LastAcc(_, _)
-\* rank of the last admitted entry among the first k insertions (0 = none): an insertion is admitted iff its
-\* name is strictly greater than the last admitted one
-LastAcc(ranks, k) ==
-  IF k = 0 THEN 0
-  ELSE IF ranks[k] > LastAcc(ranks, k - 1) THEN ranks[k] ELSE LastAcc(ranks, k - 1)
+RECURSIVE LastAccB(_, _, _)
+\* rank of the last admitted entry among the first k insertions (bottom = none yet): an insertion is admitted iff
+\* its name is strictly greater than the last admitted one.
+\* Ranks of non-empty names are 1..n; the EMPTY name has rank 0 (it is the least byte string).  The statement does
+\* not say whether a listing may contain an entry with an empty name, so both readings are admitted:
+\*   bottom = 0    the empty name is never admitted (what restic's builder does: "" is not greater than the
+\*                 initial last name ""), every other entry as if it had not been inserted;
+\*   bottom = -1   the empty name is an ordinary least name (admitted iff nothing was admitted before it).
+\* In both readings everything that WAS admitted must come back from the decoder, unchanged and in order.
+LastAccB(ranks, k, bottom) ==
+  IF k = 0 THEN bottom
+  ELSE IF ranks[k] > LastAccB(ranks, k - 1, bottom) THEN ranks[k] ELSE LastAccB(ranks, k - 1, bottom)
 
-Admitted(ranks) == [k \in DOMAIN ranks |-> ranks[k] > LastAcc(ranks, k - 1)]
+AdmittedB(ranks, bottom) == [k \in DOMAIN ranks |-> ranks[k] > LastAccB(ranks, k - 1, bottom)]
+Admitted(ranks) == AdmittedB(ranks, 0)
+AdmissionOK(ranks, accepted) == accepted = AdmittedB(ranks, 0) \/ accepted = AdmittedB(ranks, -1)
 
 RECURSIVE Filter(_, _, _)
 Filter(ranks, flags, k) ==
@@ -37,15 +45,15 @@ NoDiffs(d) == \A i \in DOMAIN d : d[i] = <<>>
 
 Range(s) == {s[i] : i \in DOMAIN s}
 
-\* r.ranks      ranks of the names in insertion order (AddNode calls)
+\* r.ranks      ranks of the names in insertion order (AddNode calls); 0 = the empty name
 \* r.accepted   AddNode returned no error
-\* r.dec_ranks  ranks of the names of the decoded tree, in decoding order
+\* r.dec_ranks  ranks of the names of the decoded tree, in decoding order (1000000 = a name that was never inserted)
 \* r.diffs      per decoded entry: differing fields w.r.t. the admitted entry at the same position
 \* r.outs       tokens of the byte strings of: the encoding, a second encoding of the same insertions, the
 \*              re-encoding of the decoded entries
 TreeOK(r) ==
   /\ ~r.panic
-  /\ r.accepted = Admitted(r.ranks)
+  /\ AdmissionOK(r.ranks, r.accepted)
   /\ ~r.fin_err /\ ~r.dec_err
   /\ r.dec_ranks = Filter(r.ranks, r.accepted, Len(r.ranks))
   /\ StrictlySorted(r.dec_ranks)
@@ -86,4 +94,11 @@ Seqs(S, n) == UNION {[1..k -> S] : k \in 0..n}
 ASSUME \A s \in Seqs(1..3, 4) :
           /\ StrictlySorted(Filter(s, Admitted(s), Len(s)))
           /\ (\A k \in DOMAIN s : Admitted(s)[k]) <=> StrictlySorted(s)
+\* with the empty name (rank 0) in the alphabet: both readings admit a strictly sorted subsequence; they agree on
+\* every sequence without the empty name; the strict reading never admits it, the lenient one only in first place
+ASSUME \A s \in Seqs(0..2, 4) :
+          /\ StrictlySorted(Filter(s, AdmittedB(s, 0), Len(s))) /\ StrictlySorted(Filter(s, AdmittedB(s, -1), Len(s)))
+          /\ (\A k \in DOMAIN s : s[k] # 0) => AdmittedB(s, 0) = AdmittedB(s, -1)
+          /\ \A k \in DOMAIN s : s[k] = 0 => /\ ~AdmittedB(s, 0)[k]
+                                             /\ AdmittedB(s, -1)[k] <=> k = 1
 =============================================================================
